@@ -46,6 +46,7 @@ CONSTANTS
   FIXWRAP = TRUE
   FIXHOPS = {fixhops}
   FIXOHEXP = TRUE
+  FIXOHSEC = TRUE
   XorAcc <- SymXor
   MAXLEN = {maxlen}
   ALLCH = {allch}
@@ -64,9 +65,10 @@ CONSTANTS
   FIXWRAP = TRUE
   FIXHOPS = TRUE
   FIXOHEXP = {fixohexp}
+  FIXOHSEC = {fixohsec}
   XorAcc <- SymXor
   GEN = {gen}
-INVARIANTS ErrIsAtomic StdAgree EndsSwap ExpiryTotal Emit
+INVARIANTS ErrIsAtomic StdAgree EndsSwap ExpiryTotal SetSecondAgree Emit
 """
 
 
@@ -214,7 +216,7 @@ def run(c):
             d["fam"] = "std"
         all_cells += cells
     # one-hop paths: small decision table
-    r = c.tlc(SD, "MC_OneHop", cfg=cfg(c, "mc_onehop.cfg", OH_TMPL.format(fixohexp="TRUE", gen="TRUE")), timeout=3000)
+    r = c.tlc(SD, "MC_OneHop", cfg=cfg(c, "mc_onehop.cfg", OH_TMPL.format(fixohexp="TRUE", fixohsec="TRUE", gen="TRUE")), timeout=3000)
     for inv in r.violated:
         c.violation("spec:onehop:%s" % inv, "design-level: invariant %s violated on MC_OneHop; see %s" % (inv, r.out_path), {"tlc_out": r.out_path})
     oh = c.printed_json(r, "OHCELL")
@@ -223,9 +225,10 @@ def run(c):
     for d in oh:
         d["fam"] = "onehop"
     all_cells += oh
-    rb = c.tlc(SD, "MC_OneHop", cfg=cfg(c, "mc_onehop_unfixed.cfg", OH_TMPL.format(fixohexp="FALSE", gen="FALSE")), expect_violation=True, coverage=False)
-    if "ExpiryTotal" not in rb.violated:
-        c.fail_tool("oracle self-check failed: FIXOHEXP=FALSE no longer violates ExpiryTotal in the model")
+    for fe, fs, inv in (("FALSE", "TRUE", "ExpiryTotal"), ("TRUE", "FALSE", "SetSecondAgree")):
+        rb = c.tlc(SD, "MC_OneHop", cfg=cfg(c, "mc_onehop_unfixed_%s.cfg" % inv, OH_TMPL.format(fixohexp=fe, fixohsec=fs, gen="FALSE")), expect_violation=True, coverage=False)
+        if inv not in rb.violated:
+            c.fail_tool("oracle self-check failed: the pinned one-hop variant no longer violates %s in the model" % inv)
     # ---- 1b. oracle self-checks: the pinned-commit variants must be refuted -------------------------
     r0 = c.tlc(SD, "MC_PathOps", cfg=cfg(c, "mc_unfixed_rev.cfg", MC_TMPL.format(
         chmod=64, fixrev="FALSE", fixhops="TRUE", maxlen=2, allch="FALSE", depth=1, gen="FALSE", family="ptr")),
